@@ -94,6 +94,11 @@ KIND_OF_EXT = {
     're.finditer': 'iterator', 're.sub': PLAIN, 're.subn': 'tuple', 're.split': 'list', 're.compile': 'other-object',
     'itertools.chain': 'iterator', 'itertools.islice': 'iterator', 'itertools.repeat': 'iterator',
     'operator.itemgetter': 'other-object', 'operator.attrgetter': 'other-object',
+    # dict subclasses with behaviour of their own: reading a missing key of a defaultdict / Counter inserts it (no KeyError,
+    # the container grows on a read); none of them is a plain dict
+    'collections.defaultdict': 'dict-with-default-factory', 'collections.Counter': 'dict-with-default-factory',
+    'collections.OrderedDict': 'dict-subclass', 'collections.ChainMap': 'other-object', 'collections.deque': 'other-object',
+    'collections.UserDict': 'other-object', 'collections.UserList': 'other-object',
 }
 
 # ------------------------------------------------------------------- effects
